@@ -14,7 +14,8 @@ RULE = ("cases: streams of 2..7 batches of announcements from 4 real Ed25519 key
         "(got_announcements) and IntroducerService (publish): valid, replayed, reordered, duplicate, wrong claimed key, flipped "
         "message / signature bytes, malformed encodings (unsigned, no v0- prefix, bad base32, wrong length, respelled key, not a "
         "triple), signed-but-malformed content (not UTF-8 / JSON / object, no service-name, bad nickname / FURL), missing, float and "
-        "non-numeric seqnum; non-trivial = a stream in which at least one announcement replaces a stored one and at least one bad "
+        "non-numeric seqnum; in about three streams of four the connection to the introducer is lost and re-established between batches "
+        "(notifyOnDisconnect callback, then _got_versioned_introducer) and old validly signed announcements are replayed right after; non-trivial = a stream in which at least one announcement replaces a stored one and at least one bad "
         "announcement precedes a good one in the same batch; distinct = distinct (verdict sequence of the stream)")
 META = {
     "title": "Introducer announcements are authentic and fresh",
@@ -23,7 +24,7 @@ META = {
                    "everything stored or delivered appeared in the stream with a signature verifying under the key it is filed "
                    "under (under signature soundness: was signed by that key); per (service, key) an integer seqnum is only ever "
                    "replaced by a strictly greater one; a rejected announcement leaves the state untouched and the rest of its batch "
-                   "is processed as if it were absent.  The model on symbolic signatures is run against real IntroducerClient and "
+                   "is processed as if it were absent; connection losses between batches change nothing that was accepted.  The model on symbolic signatures is run against real IntroducerClient and "
                    "IntroducerService objects with real keys; the property's rules are evaluated directly on what subscribers receive."),
     "level_note": ("Ed25519, base32 and JSON are abstract in the proof and exercised by the differential run only; foolscap "
                    "transport, the announcement cache file and subscriber callbacks are outside the model.  Model follows the fixed "
